@@ -8,7 +8,8 @@ def run(ctx):
     bfs = core.generate(ctx, "Gen_Pivot.tla", "Gen_Pivot_bfs.cfg" if quick else "Gen_Pivot_bfs5.cfg", 0, 0, ctx.seed, bfs=True, timeout=900)
     walks = core.generate(ctx, "Gen_Pivot.tla", "Gen_Pivot.cfg", 150 if quick else 3000, 14, ctx.seed, timeout=900)
     walks += core.generate(ctx, "Gen_Pivot.tla", "Gen_Pivot_restart.cfg", 120 if quick else 2000, 8, ctx.seed, timeout=900)      # a restart in the middle
-    ctx.say("  behaviours: %d bounded-exhaustive + %d random walks (depth 14, and depth 8 around a restart)" % (len(bfs), len(walks)))
+    walks += core.generate(ctx, "Gen_Pivot.tla", "Gen_Pivot_rebuild.cfg", 0, 0, ctx.seed, bfs=True, timeout=900)      # every forest of up to four steps, then the restart
+    ctx.say("  behaviours: %d bounded-exhaustive + %d random walks (depth 14, and depth 8 around a restart) and forests rebuilt by a restart" % (len(bfs), len(walks)))
     behs = bfs + walks
     hb = core.build_harness(ctx)
     trace, summ = core.run_harness(ctx, hb, "pivot", behs, "pivot", timeout=2400)
